@@ -10,6 +10,8 @@ import Scale.Ghost
 import Proofs.Wrappers
 import Proofs.HookTrace
 import Proofs.HookFacts
+import Proofs.Stack
+import Props.C08
 namespace Scale.C12
 open Scale
 
@@ -140,5 +142,36 @@ example : usedMem (Impl.decodeP (.box 8 (.prim .u64))) [1, 0, 0, 0, 0, 0, 0, 0] 
 example : usedMem (Impl.decodeP (.tuple [.prim .u32, .bool])) [1, 0, 0, 0, 1] = 0 := by decide
 example : (decodeMemLimit 12 (.seq .vec 4 (.prim .u32)) [12, 1, 0, 0, 0, 2, 0, 0, 0, 3, 0, 0, 0]).1.isOk = false := by decide
 example : (decodeMemLimit 13 (.seq .vec 4 (.prim .u32)) [12, 1, 0, 0, 0, 2, 0, 0, 0, 3, 0, 0, 0]).1.isOk = true := by decide
+
+
+/-! ### The tracker under the other wrappers
+
+`decode_with_depth_limit` may be called on a `MemTrackingInput`, and a decoder may wrap its input in
+a `CountedInput`: the announcements must still arrive. For every program and every limit: -/
+
+/-- Through a counting wrapper the memory tracker sees exactly what it sees without it: same
+    result, same tracked usage (the tracker's whole state). -/
+theorem usage_unchanged_under_counting {α : Type} (L : Nat) (p : Prog α) (bs : Bytes) (c : Nat) :
+    (run (countedInput (memInput L sliceInput)) p ((bs, 0), c)).1 = (run (memInput L sliceInput) p (bs, 0)).1 ∧
+    (run (countedInput (memInput L sliceInput)) p ((bs, 0), c)).2.1 = (run (memInput L sliceInput) p (bs, 0)).2 :=
+  counted_transparent (memInput L sliceInput) rfl p (bs, 0) c
+
+/-- Through a depth limiter that does not bind, likewise: a successful memory-limited decode
+    succeeds with the same value and leaves the tracker in the same state (same `used_mem()`). -/
+theorem usage_unchanged_under_depth_limit {α : Type} (L D : Nat) (p : Prog α) (bs : Bytes) (v : α)
+    (hv : (run (memInput L sliceInput) p (bs, 0)).1 = .ok v)
+    (hD : (run (depthRec (memInput L sliceInput)) p ((bs, 0), 0, 0)).2.2.2 ≤ D) :
+    (run (depthInput D (memInput L sliceInput)) p ((bs, 0), 0)).1 = .ok v ∧
+    (run (depthInput D (memInput L sliceInput)) p ((bs, 0), 0)).2.1 = (run (memInput L sliceInput) p (bs, 0)).2 :=
+  C08.depth_wrapper_nonbinding (memInput L sliceInput) rfl D p (bs, 0) v hv hD
+
+/-- And a depth limiter over the tracker never makes a failing decode succeed. -/
+theorem depth_limit_over_tracker_adds_no_success {α : Type} (L D : Nat) (p : Prog α) (bs : Bytes) (v : α)
+    (h : (run (depthInput D (memInput L sliceInput)) p ((bs, 0), 0)).1 = .ok v) :
+    (run (memInput L sliceInput) p (bs, 0)).1 = .ok v :=
+  C08.wrappers_never_add_success (memInput L sliceInput) rfl D p (bs, 0) v h
+
+example : (run (depthInput 5 (memInput 100 sliceInput)) (Impl.decodeP (.box 8 (.prim .u64))) (([1, 0, 0, 0, 0, 0, 0, 0], 0), 0)).2.1.2 = 8 := by
+  decide
 
 end Scale.C12
